@@ -52,13 +52,48 @@ def matcher_helpers(mod):
                     is_rec = True
         if is_rec:
             rec.append(fn)
-    scan = [n for n in rec if len(own_params(n)) == 3]
-    deep = [n for n in rec if len(own_params(n)) == 4]
+    def parallel_descent(fn):
+        """does a recursive call descend into two parameters at once (p.left, q.left)?  -- the structural scan walks
+        pattern and input together, the leaf numbering walks one category"""
+        ps = own_params(fn)
+        pred = self_call_pred(fn)
+        for n in ast.walk(fn):
+            if isinstance(n, ast.Call):
+                f = n.func
+                t = ('name', f.id) if isinstance(f, ast.Name) else (('attr', ('name', f.value.id), f.attr) if isinstance(f, ast.Attribute) and isinstance(f.value, ast.Name) else None)
+                if t is not None and pred(t):
+                    desc = {a.value.id for a in n.args if isinstance(a, ast.Attribute) and a.attr in ('left', 'right') and isinstance(a.value, ast.Name) and a.value.id in ps}
+                    if len(desc) >= 2:
+                        return True
+        return False
+    scan = [n for n in rec if len(own_params(n)) in (3, 4) and parallel_descent(n)]
+    deep = [n for n in rec if len(own_params(n)) == 4 and not parallel_descent(n)]
     leaves = [n for n in rec if len(own_params(n)) == 1 and any(isinstance(x, (ast.Yield, ast.YieldFrom)) for x in ast.walk(n))]
     if len(scan) != 1 or len(deep) > 1 or (not deep and len(leaves) != 1):
         raise AnalysisError('%s: cannot identify the structural scan (recursive, 3 parameters) and the leaf numbering '
                             '(recursive with 4 parameters, or a recursive generator of the leaves) of the matcher' % UNI)
     return scan[0], (deep[0] if deep else leaves[0])
+
+
+def scan_roles(scan):
+    """-> (pattern param, input param, feature-table param, term of the table of bound variables, recursion args builder)
+    for the structural scan written with the bound-variable table as `self.cats` (3 parameters) or handed in explicitly
+    (4 parameters: the one that gets `[pattern.base] = input` stored)"""
+    ps = own_params(scan)
+    if len(ps) == 3:
+        s, t, res = ps
+        return s, t, res, A(N('self'), 'cats'), (lambda a, b: (a, b, N(res)))
+    s, t = ps[0], ps[1]
+    cats = None
+    for n in ast.walk(scan):
+        if isinstance(n, ast.Assign) and len(n.targets) == 1 and isinstance(n.targets[0], ast.Subscript) and isinstance(n.targets[0].value, ast.Name) \
+                and n.targets[0].value.id in ps[2:] and isinstance(n.value, ast.Name) and n.value.id == t:
+            cats = n.targets[0].value.id
+    if cats is None:
+        raise AnalysisError('%s: %s: cannot tell which parameter is the table of bound variables' % (UNI, scan.name))
+    res = [p_ for p_ in ps[2:] if p_ != cats][0]
+    order = ps[2:]
+    return s, t, res, N(cats), (lambda a, b: (a, b) + tuple(N(p_) for p_ in order))
 
 
 def flat(t, op):
@@ -92,7 +127,7 @@ def r_scan(repo, rep, R='R6.3'):
          atomic pattern otherwise -> match;  functor pattern vs atomic input -> no match"""
     mod = repo.module(UNI)
     scan, deep = matcher_helpers(mod)
-    s, t, res = own_params(scan)
+    s, t, res, CATS, rec_args = scan_roles(scan)
     S_, T_ = N(s), N(t)
     w = '%s:%s %s' % (UNI, scan.lineno, qualname_of(scan))
     paths, vals = _bool_paths(scan, no_inline=(deep.name,))
@@ -106,15 +141,15 @@ def r_scan(repo, rep, R='R6.3'):
         atoms, rows = logic.truth_function(vals, constraint)
     except ValueError as e:
         raise AnalysisError('%s: %s tests too many conditions (%s)' % (UNI, scan.name, e))
-    bound = ('sub', A(N('self'), 'cats'), A(S_, 'base'))
-    SEEN = [a for a in atoms if a[0] == 'in' and a[1] == A(S_, 'base') and a[2] == A(N('self'), 'cats')]
+    bound = ('sub', CATS, A(S_, 'base'))
+    SEEN = [a for a in atoms if a[0] == 'in' and a[1] == A(S_, 'base') and a[2] == CATS]
     XOR = [a for a in atoms if a[0] == 'truthy' and a[1][0] == 'binop' and a[1][1] == '^' and {a[1][2], a[1][3]} == {T_, bound}]
     EQ = [a for a in atoms if a[0] == 'eq' and set(a[1:]) == {A(S_, 'slash'), A(T_, 'slash')}]
     WILD = [a for a in atoms if (a[0] == 'in' and a[1] == C('|') and a[2][0] in ('tuple', 'list', 'set') and set(a[2][1]) == {A(S_, 'slash'), A(T_, 'slash')})]
     wild_each = [a for a in atoms if a[0] == 'eq' and C('|') in a[1:] and (set(a[1:]) - {C('|')}) <= {A(S_, 'slash'), A(T_, 'slash')}]
     if not WILD and len(wild_each) == 2:
         WILD = wild_each
-    rec = lambda side: ('truthy', ('call', ('selfcall',), (A(S_, side), A(T_, side), N(res)), ()))
+    rec = lambda side: ('truthy', ('call', ('selfcall',), rec_args(A(S_, side), A(T_, side)), ()))
     L, Rr = rec('left'), rec('right')
 
     def functor(v, sigma):
@@ -167,7 +202,7 @@ def r_scan(repo, rep, R='R6.3'):
         f_atomic = logic.formula(A(S_, 'is_atomic'))
         atomic = logic.implied(conds, f_atomic) or logic.implied(conds, logic.neg(logic.formula(A(S_, 'is_functor'))))
         if out == 'return' and atomic and st.ret != C(False) and logic.satisfiable(conds, constraint):
-            sets = [e for e in st.events if e[0] == 'setitem' and e[1] == A(N('self'), 'cats')]
+            sets = [e for e in st.events if e[0] == 'setitem' and e[1] == CATS]
             okb = okb and len(sets) == 1 and sets[0][2] == A(S_, 'base') and sets[0][3] == T_
     rep.check(okb, R, w, 'scan:binds', 'an accepted atomic pattern binds its variable to the matched sub-category',
               'an accepted atomic pattern does not record self.cats[variable] = matched sub-category')
@@ -183,7 +218,7 @@ def r_scan_deep(repo, rep, R='R6.3'):
     ps = own_params(sd)
     w = '%s:%s %s' % (UNI, sd.lineno, qualname_of(sd))
     is_self = self_call_pred(sd)
-    s2, t2, res2 = own_params(scan)
+    s2, t2, res2, _cats2, _rec2 = scan_roles(scan)
     wscan = '%s:%s %s' % (UNI, scan.lineno, qualname_of(scan))
     is_deep = self_call_pred(sd)
     if len(ps) == 1:
